@@ -131,11 +131,23 @@ where
         }
 
         let data = if !last {
+            if next_offset > data.bytes().len() {
+                return Some(Err(Error {
+                    kind: ErrorKind::InsufficientSize,
+                    pos: self.pos,
+                }));
+            }
             let (data, next_data) = data.split(next_offset);
             self.data = Some(next_data);
             self.pos += next_offset;
             data
         } else {
+            if payload_offset > data.bytes().len() {
+                return Some(Err(Error {
+                    kind: ErrorKind::InsufficientSize,
+                    pos: self.pos,
+                }));
+            }
             data
         };
         let (_, payload) = data.split(payload_offset);
